@@ -1,0 +1,16 @@
+//go:build verif
+
+package core
+
+// SimGate, when set by a deterministic-simulation harness, is called at named schedule
+// points of background goroutines (currently only "txpool.runReorg", at the very top of
+// (*TxPool).runReorg, before pool.mu is taken). The harness may block inside it to decide
+// when the background work proceeds relative to foreground operations. It is nil (and this
+// whole file is absent) in normal builds; see sim_noverif.go.
+var SimGate func(name string)
+
+func simGate(name string) {
+	if g := SimGate; g != nil {
+		g(name)
+	}
+}
